@@ -69,13 +69,15 @@ func (c *connection) onClose() error {
 	}
 
 	verifPoint(vpOnCloseLost, c, 0)
-	// closed by poller
+	// closed by poller, or by an earlier user-side Close/Detach that left the teardown to the handler
+	// task holding the processing lock: in that case nobody has detached the operator yet
+	needDetach := !c.isCloseBy(poller)
 	// still need to change closing status to `user` since OnProcess should not be processed again
 	c.force(closing, user)
 
 	// user code should actively close the connection to recycle resources.
 	// poller already detached operator
-	return c.closeCallback(true, false)
+	return c.closeCallback(true, needDetach)
 }
 
 // closeBuffer recycle input & output LinkBuffer.
